@@ -167,7 +167,10 @@ def check_decode_rejects(ctx, case):
     if ok.kind != "ok":
         ctx.fail("decode-rejects-own-check", "decode(walk %s, vt_check=%s) %s" % (w, base, ok.describe()))
     for kind, pos, ch, t in neighbours(w):
-        out = monitored(dsw.decode, 10 ** 7, t, ctx.rng.choice(widths), acc, start, vt_check=base, is_faster=fast)
+        form = ctx.rng.choice(["str", "str", "str", "numpy.str_"])          # checks kept in a numpy array of strings come out as numpy.str_
+        passed = np.str_(base) if form == "numpy.str_" else base
+        out = monitored(dsw.decode, 10 ** 7, t, ctx.rng.choice(widths), acc, start, vt_check=passed, is_faster=fast)
+        ctx.cls("decode-rejects|check passed as " + form)
         ctx.evaluations += 1
         if out.kind == "ok":
             ctx.fail("decode-accepts-edited-strand", "decode(%r, vt_check=%s of %r) returned (edit %s%d%s)" % (t, base, w, kind, pos, ch))
@@ -205,7 +208,7 @@ def floors(agg, tier):
     if m.get("contract-evaluations:set_vt.ensure.vt_is_formula", 0) < 100000:
         out.append("set_vt contract evaluated %d times" % m.get("contract-evaluations:set_vt.ensure.vt_is_formula", 0))
     for name, need in (("neighbour|S", 50000), ("neighbour|I", 50000), ("neighbour|D", 10000), ("n>=33", 50),
-                       ("decode-rejected-by-check-only", 100), ("decode-rejects|empty strand", 30)):
+                       ("decode-rejected-by-check-only", 100), ("decode-rejects|empty strand", 30), ("decode-rejects|check passed as numpy.str_", 500)):
         if c.get(name, 0) < need:
             out.append("%s observed %d < %d" % (name, c.get(name, 0), need))
     return out
